@@ -8,6 +8,7 @@
    check compares every field of the message (words, rank indexes, short table,
    step bytes) and the two sizes with the implementation on generated tries. *)
 From Slim Require Import Base Keys KeysProofs Model Varint Proto Size SizeProofs.
+From Slim Require Frame FrameProofs.
 Local Open Scope nat_scope.
 
 Definition filter_opt : opts := normalize {| r_dedup := None; r_inner := None; r_leaf := None; r_complete := None |}.
@@ -38,6 +39,23 @@ Theorem C17_bound :
 Proof. exact filter_size_bound. Qed.
 Print Assumptions C17_bound.
 
+(* the same bound for the byte string itself: Frame.marshal is the model of
+   SlimTrie.Marshal (pbcmpl header + the protobuf serializer of Proto.v) used by
+   C05/C07; [cur] is the version string *)
+Theorem C17_bound_bytes :
+  forall (o : opts) (keys : list key) (T : trie) (cur s : list byte),
+    o_inner o = false -> o_leaf o = false ->
+    build o keys None = Ok T ->
+    (N.of_nat (length keys) < 67108864)%N ->
+    Frame.marshal cur (encode_trie T) = Some s ->
+    (N.of_nat (length s) <= 8 * N.of_nat (length keys) + 256)%N.
+Proof.
+  intros o keys T cur s Hi Hl Hb Hn Hm.
+  rewrite (FrameProofs.marshal_length _ _ _ Hm).
+  exact (filter_size_bound o keys T Hi Hl Hb Hn).
+Qed.
+Print Assumptions C17_bound_bytes.
+
 (* the default options of NewSlimTrie are filter mode *)
 Example C17_default_is_filter_mode : o_inner filter_opt = false /\ o_leaf filter_opt = false.
 Proof. split; reflexivity. Qed.
@@ -49,5 +67,53 @@ Definition ex_keys : list key :=
 
 Example C17_hypotheses_satisfiable :
   exists T r, build filter_opt ex_keys None = Ok T /\ t_root T = Some r /\
-              leaf_count r = 7 /\ inner_count r = 4 /\ marshal_size T = 95%N.
-Proof. vm_compute. eexists. eexists. repeat split. Qed.
+              leaf_count r = 7 /\ inner_count r = 4 /\ marshal_size T = 105%N.
+Proof.
+  eexists. eexists. split; [vm_compute; reflexivity|]. split; [reflexivity|]. vm_compute. repeat split.
+Qed.
+
+(* (c) independence of key length.  Prepending a common prefix P to every key
+   yields THE SAME TREE except that the root's single-branch run grows by 2*|P|
+   half-bytes: no key material is stored, whatever the key lengths. *)
+Theorem C17_prefix_same_tree :
+  forall (o : opts) (P : key) (keys : list key) (T T' : trie),
+    o_inner o = false -> o_leaf o = false ->
+    build o keys None = Ok T -> build o (map (app P) keys) None = Ok T' ->
+    t_root T' = option_map (bump_step (2 * length P)) (t_root T) /\
+    t_innerpfx T' = t_innerpfx T /\ t_leafpfx T' = t_leafpfx T /\ t_leaves T' = t_leaves T.
+Proof. exact prefix_same_tree. Qed.
+Print Assumptions C17_prefix_same_tree.
+
+(* ... hence the serialized size is EXACTLY the same when the root already had a
+   step (all keys share their first half-byte) or the trie is a single leaf *)
+Theorem C17_prefix_size_equal :
+  forall (o : opts) (P : key) (keys : list key) (T T' : trie),
+    o_inner o = false -> o_leaf o = false ->
+    build o keys None = Ok T -> build o (map (app P) keys) None = Ok T' ->
+    (forall r, t_root T = Some r -> root_has_step r = true) ->
+    marshal_size T' = marshal_size T.
+Proof. exact prefix_size_equal. Qed.
+Print Assumptions C17_prefix_size_equal.
+
+(* The clause "changes the size by at most a few bytes" is REFUTED as a universal
+   statement when the root has no step: the root gains a step entry and every
+   entry of the r128 rank index of InnerPrefixes.PresenceBM grows by one; entries
+   that sit at 127 cross a varint boundary.  Witness (finding
+   C17:prefix-delta:rank-index-varint-carry): 2032 keys  f 'x' 'x' a b  with
+   f = 0..126 and a, b in {00, 01, 10, 11}; prefix 0x83: 1903 -> 1921 bytes (+18,
+   more than the 16 the format analysis allows for "a few"); the excess grows
+   like n/128.  The implementation produces the same two sizes. *)
+Definition c17_bnat (n : nat) : byte := match Byte.of_nat n with Some b => b | None => x00 end.
+Definition c17_bytes4 : list byte := [x00; x01; x10; x11].
+Definition c17_pairs : list (byte * byte) := flat_map (fun a => map (fun b => (a, b)) c17_bytes4) c17_bytes4.
+Definition c17_plateau : list key :=
+  flat_map (fun f => map (fun ab => [c17_bnat f; x78; x78; fst ab; snd ab]) c17_pairs) (seq 0 127).
+Definition c17_size (keys : list key) : option N :=
+  match build filter_opt keys None with Ok T => Some (marshal_size T) | Err _ => None end.
+
+Theorem C17_prefix_few_bytes_refuted :
+  length c17_plateau = 2032 /\
+  c17_size c17_plateau = Some 1903%N /\
+  c17_size (map (app [x83]) c17_plateau) = Some 1921%N.
+Proof. vm_compute. repeat split. Qed.
+Print Assumptions C17_prefix_few_bytes_refuted.
